@@ -4,6 +4,12 @@ from pyvc.verify import Post, Case, Equiv, NativeFacts
 PROPERTY = 'C18'
 REF_MODULES = ['h_path', 'ref_extra']
 FIELD_TYPES = {'core.Path.path_t': 'inst:core.TType', 'core.TType.__ops__': 'seq'}
+
+
+def config(cfg):
+    cfg.field_types.update(FIELD_TYPES)       # (also what a check that claims these contracts through common.shared gets)
+
+
 REP = ['len(ops(self)) % 2 == 1']          # representation invariant of a path: (root, op1, arg1, ..., opn, argn)
 
 _SLICE_CASES = []
@@ -131,6 +137,8 @@ def contracts():
              ensures=["result == (ops(self)[:3] == (T, 'P', other))"])]))
     cs.append(Post('core._format_slice', label='core._format_slice[not-a-slice]', cases=[
         Case('int', args={'x': 'int'}, ensures=['result == bbrepr(x)'])]))
+    from contracts import extra as _ex
+    cs.append(_ex.bbrepr_facts())
     return cs
 
 
